@@ -44,7 +44,9 @@ def r1(rr, repo):
                     ok = sel.startswith('self.pubs[self.pulls.index(') and 'min(' in sel
                     rr.ob('balanced: that socket is the PUB paired with the chosen PULL (self.pubs[self.pulls.index(out_pull)])', ok, za.mod, e.node, witness=sel[:200], key='bal-pub-paired')
                     comp = [n for n in ast.walk(node) if isinstance(n, ast.ListComp)]
-                    okc = any(any('out_do_send and out_nrequested' == U(i) for g in c.generators for i in g.ifs) for c in comp)
+                    def conj(i):
+                        return {U(v) for v in i.values} if isinstance(i, ast.BoolOp) and isinstance(i.op, ast.And) else {U(i)}
+                    okc = any({'out_do_send', 'out_nrequested'} <= set().union(*[conj(i) for g in c.generators for i in g.ifs], set()) for c in comp)
                     rr.ob('balanced: candidates are outputs that are ready and have a requesting client (out_do_send and out_nrequested)', okc, za.mod, e.node, key='bal-candidates')
             elif bal is False:
                 nu += 1
@@ -72,10 +74,15 @@ def r2(rr, repo):
         resets = [e for e in p.events if e.kind == 'call' and e.term.endswith('.new_recv') and '__elem__' in e.term]
         rr.ob('balanced: a newer id from one source does not reset the others (they carry other frames)', not resets, za.mod, resets[0].node if resets else call, witness=p.pc_text(), key='bal-no-reset')
         tp = p.facts.get(f'truthy({topic})')
-        if tp is True:
+        if tp is not False:
+            # a path on which the topic was never tested covers data messages too: the lock must not depend on anything
+            # but "this is a data message" (a set that is already complete is exactly the single-topic frame a balanced
+            # stream carries; skipping the lock for it lets the same call adopt a second frame from another source)
             n += 1
             drop = [e for e in p.events if e.kind == 'bind' and e.term == 'socks' and e.args[0] == 'None']
-            rr.ob('balanced: events already polled from other sources are dropped (socks = None)', bool(drop), za.mod, call, witness=p.pc_text(), key='bal-drop-polled')
+            rr.ob('balanced: events already polled from other sources are dropped (socks = None) after every data message, whatever else holds', bool(drop) and tp is True, za.mod, call, witness=p.pc_text(), key='bal-drop-polled')
+            visit = [e for e in p.events if e.kind == 'for' and 'sender' in e.term]
+            rr.ob('balanced: the other sources are visited (to leave the poller) after every data message, whatever else holds', bool(visit), za.mod, call, witness=p.pc_text(), key='bal-visit-others')
             other = [v for kk, v in p.facts.items() if kk.startswith('is(') and '__elem__' in kk]
             inp = [v for kk, v in p.facts.items() if kk.startswith('in(') and kk.endswith(', self.poller)')]
             if other and other[-1] is False and inp and inp[-1] is True:
